@@ -298,6 +298,8 @@ def e2e_case(draw, broker):
     # first job's explicit args_id (the documented way of sharing / replacing stored arguments)
     c["second"] = draw(st.one_of(st.none(), st.dictionaries(ARG_KEYS, rich_value, min_size=1, max_size=3)))
     # the consumer replaces the message it holds (requeue with a corrected payload): the next delivery carries the new one
+    # the worker is already consuming when the job is enqueued, and the producer's bucket store is slower than the worker's lookup
+    c["worker_first"] = draw(st.integers(0, 3)) == 0
     c["requeue"] = draw(st.one_of(st.none(), st.none(), st.dictionaries(ARG_KEYS, st.integers(-9, 9), min_size=1, max_size=3)))
     if broker != "mem":
         c["lat"] = draw(st.lists(st.sampled_from([0.0, 0.001]), max_size=6))
@@ -325,6 +327,33 @@ async def _e2e(loop, c, out: Outcome):
             kw["args_id"] = "args-" + c["id"]  # (an explicit args_id without bucket transport means "already stored")
     if c["deferred_until_ago_us"] is not None:
         kw["deferred_until"] = now - timedelta(microseconds=c["deferred_until_ago_us"])
+    if c.get("worker_first") and c["bucket"] and args is not None and c["broker"] != "amqp" and c["deferred_until_ago_us"] is not None:
+        # (deferred_until in the past = immediately deliverable)
+        got0: list = []
+        router0 = Router()
+
+        async def catch0(**kwargs: Any) -> None:
+            got0.append(kwargs)
+
+        router0.actor(catch0, name=c["name"], queue=c["queue"], converter=BasicConverter)
+        w0 = Worker(routers=[router0], messages_limit=1, handle_signals=[], _connection=conn)
+        wt = asyncio.ensure_future(w0.run())
+        await asyncio.sleep(0.3)
+        prod = conn if c["broker"] == "mem" else env.connection("p1", None, buckets=True, bucket_lat=[0.05, 0.05, 0.05, 0.05])
+        if prod is not conn:
+            await prod.connect()
+        await Job(**{**kw, "_connection": prod}).enqueue()
+        try:
+            await asyncio.wait_for(wt, timeout=20.0)
+        except asyncio.TimeoutError:
+            out.v("not-executed", "a worker that was already consuming did not execute the job within 20 s")
+            return
+        if len(got0) != 1 or got0[0] != normalise(args):
+            out.v("actor-arguments", f"worker already consuming, arguments through a bucket: actor received {got0!r}, expected "
+                  f"{normalise(args)!r}", broker=c["broker"], worker_first=True)
+        out.nontrivial = True
+        out.cls("broker-" + c["broker"], "worker-first")
+        return
     job = Job(**kw)
     ekey, epayload, eparams = await job.enqueue()
     # what Job.enqueue() returns must itself reflect the configuration
